@@ -418,6 +418,169 @@ theorem matvec_fold (n : Nat) (x : Vec) (hx : x.length = 2 ^ n) (a : Op)
     rw [this.2, (hv i).2, vscale_getD]
     exact ⟨this.1, rfl⟩
 
+/-! ### `get_linear_qubit_operator_diagonal`: the same recursion on the all-ones vector -/
+
+/-- one factor of the loop of `get_linear_qubit_operator_diagonal` -/
+def diagStep (acc : Option (List Vec × Nat)) (f : Nat × Nat) : Option (List Vec × Nat) :=
+  match acc with
+  | none => none
+  | some (vs, tf) => if f.2 = 1 ∨ f.2 = 2 then none else some (mvStep (f.1, 3) tf vs, f.1 + 1)
+
+theorem diagTerm_eq (n : Nat) (t : List (Nat × Nat)) :
+    diagTerm n t = (t.foldl diagStep (some ([List.replicate (2 ^ n) 1], 0))).map fun s => s.1.flatten := rfl
+
+theorem diagFold_none (t : List (Nat × Nat)) : t.foldl diagStep none = none := by
+  induction t with
+  | nil => rfl
+  | cons f t ih => simpa [diagStep] using ih
+
+/-- only `Z` factors: the loop coincides with the `_matvec` loop -/
+theorem diagFold_allZ (t : List (Nat × Nat)) (h : ∀ f ∈ t, f.2 = 3) : ∀ (vs : List Vec) (tf : Nat),
+    ∃ tf', t.foldl diagStep (some (vs, tf)) = some (mvFold t vs tf, tf') := by
+  induction t with
+  | nil => intro vs tf; exact ⟨tf, rfl⟩
+  | cons f t ih =>
+    intro vs tf
+    have h3 := h f (by simp)
+    have hne : ¬ (f.2 = 1 ∨ f.2 = 2) := by omega
+    have hf : (f.1, 3) = f := by rw [← h3]
+    simp only [List.foldl_cons, diagStep, hne, if_false, hf]
+    rw [mvFold_cons]
+    exact ih (fun g hg => h g (by simp [hg])) _ _
+
+/-- an `X` or `Y` factor: the term is skipped -/
+theorem diagFold_xy (t : List (Nat × Nat)) (h : ∃ f ∈ t, f.2 = 1 ∨ f.2 = 2) : ∀ (acc : Option (List Vec × Nat)),
+    t.foldl diagStep acc = none := by
+  induction t with
+  | nil => obtain ⟨f, hf, _⟩ := h; cases hf
+  | cons g t ih =>
+    intro acc
+    simp only [List.foldl_cons]
+    by_cases hg : g.2 = 1 ∨ g.2 = 2
+    · cases acc with
+      | none => exact diagFold_none t
+      | some st => simp only [diagStep, hg, if_true]; exact diagFold_none t
+    · obtain ⟨f, hf, hxy⟩ := h
+      rcases List.mem_cons.mp hf with rfl | hf'
+      · exact absurd hxy hg
+      · exact ih ⟨f, hf', hxy⟩ _
+
+/-- for a term of `Z` factors only, `diagTerm` is the `_matvec` recursion on the all-ones vector -/
+theorem diagTerm_of_allZ (n : Nat) (t : List (Nat × Nat)) (h : ∀ f ∈ t, f.2 = 3) :
+    diagTerm n t = some (matvecTerm t (List.replicate (2 ^ n) 1)) := by
+  obtain ⟨tf', he⟩ := diagFold_allZ t h [List.replicate (2 ^ n) 1] 0
+  rw [diagTerm_eq, he]
+  rfl
+
+/-- a term containing `X` or `Y` does not contribute to the diagonal -/
+theorem diagTerm_of_xy (n : Nat) (t : List (Nat × Nat)) (h : ∃ f ∈ t, f.2 = 1 ∨ f.2 = 2) :
+    diagTerm n t = none := by
+  rw [diagTerm_eq, diagFold_xy t h]
+  rfl
+
+/-- a product of `Z`s is diagonal in the computational basis -/
+theorem actPTerm_allZ (t : List (Nat × Nat)) (h : ∀ f ∈ t, f.2 = 3) (s : Nat) : (actPTerm t s).2 = s := by
+  induction t with
+  | nil => rfl
+  | cons f t ih =>
+    rw [actPTerm_cons]
+    simp only [pcomp, pfac, h f (by simp), actP]
+    exact ih (fun g hg => h g (by simp [hg]))
+
+/-! ### the parallel operator: the sum over the groups is the whole operator -/
+
+/-- `Σ_{(t, c) ∈ a} c · (t x)[i]` -/
+def termSum (x : Vec) (i : Nat) (a : Op) (init : GQ) : GQ :=
+  a.foldl (fun acc (e : Term × GQ) => acc + e.2 * (matvecTerm e.1 x).getD i 0) init
+
+theorem termSum_init (x : Vec) (i : Nat) (a : Op) (c : GQ) : termSum x i a c = c + termSum x i a 0 := by
+  induction a generalizing c with
+  | nil => simp [termSum, gq_add_zero]
+  | cons e a ih =>
+    simp only [termSum, List.foldl_cons] at ih ⊢
+    rw [ih (c + _), ih (0 + _), gq_zero_add, gq_add_assoc]
+
+theorem termSum_flatten (x : Vec) (i : Nat) (gs : List Op) :
+    termSum x i gs.flatten 0 = gs.foldl (fun acc g => acc + termSum x i g 0) 0 := by
+  have gen : ∀ (c : GQ), termSum x i gs.flatten c = gs.foldl (fun acc g => acc + termSum x i g 0) c := by
+    induction gs with
+    | nil => intro c; rfl
+    | cons g gs ih =>
+      intro c
+      simp only [List.flatten_cons, List.foldl_cons]
+      have : termSum x i (g ++ gs.flatten) c = termSum x i gs.flatten (termSum x i g c) := by
+        simp [termSum, List.foldl_append]
+      rw [this, ih, termSum_init x i g c]
+  exact gen 0
+
+theorem map_getD_range {α : Type} (l : List α) (d : α) : (List.range l.length).map (fun i => l.getD i d) = l := by
+  apply List.ext_getElem
+  · simp
+  · intro i h1 h2
+    simp [List.getD_eq_getElem?_getD, List.getElem?_eq_getElem h2]
+
+theorem reduceAdd_getD (N : Nat) (zero : Vec) (i : Nat) (hz : zero.getD i 0 = 0) (L : List Vec)
+    (hL : ∀ v ∈ L, v.length = N) :
+    (reduceAdd zero L).getD i 0 = L.foldl (fun acc v => acc + v.getD i 0) 0 := by
+  cases L with
+  | nil => simpa [reduceAdd] using hz
+  | cons r rest =>
+    simp only [reduceAdd, List.foldl_cons, gq_zero_add]
+    have gen : ∀ (rest : List Vec) (r : Vec), r.length = N → (∀ v ∈ rest, v.length = N) →
+        (rest.foldl vadd r).getD i 0 = rest.foldl (fun acc v => acc + v.getD i 0) (r.getD i 0) := by
+      intro rest
+      induction rest with
+      | nil => intro r _ _; rfl
+      | cons v rest ih =>
+        intro r hr hrest
+        have hv := hrest v (by simp)
+        have := vadd_getD r v (by rw [hr, hv]) i
+        simp only [List.foldl_cons]
+        rw [ih (vadd r v) (by rw [this.1, hr]) (fun w hw => hrest w (by simp [hw])), this.2]
+    exact gen rest r (hL r (by simp)) (fun v hv => hL v (by simp [hv]))
+
+/-- with the group results delivered in the natural order, every entry of the parallel result is
+the entry of the undivided `_matvec` -/
+theorem parallel_eq_matvec (n k : Nat) (a : Op) (x : Vec) (hx : x.length = 2 ^ n)
+    (ha : ∀ e ∈ a, e.1.Pairwise (fun f g => f.1 < g.1) ∧ ∀ f ∈ e.1, f.1 < n ∧ 1 ≤ f.2 ∧ f.2 ≤ 3) (i : Nat) :
+    (parallelMatvec k a x (List.range (operatorGroups k a).length)).getD i 0 = (matvec a x).getD i 0 := by
+  have hflat := operatorGroups_flatten k a
+  have hg : ∀ g ∈ operatorGroups k a, ∀ e ∈ g,
+      e.1.Pairwise (fun f g => f.1 < g.1) ∧ ∀ f ∈ e.1, f.1 < n ∧ 1 ≤ f.2 ∧ f.2 ≤ 3 := by
+    intro g hg e he
+    apply ha
+    rw [← hflat]
+    exact List.mem_flatten.mpr ⟨g, hg, he⟩
+  have hz : (x.map fun _ => (0 : GQ)).getD i 0 = 0 := by
+    simp only [List.getD_eq_getElem?_getD, List.getElem?_map]
+    cases x[i]? <;> rfl
+  have hmv : ∀ (b : Op), (∀ e ∈ b, e.1.Pairwise (fun f g => f.1 < g.1) ∧ ∀ f ∈ e.1, f.1 < n ∧ 1 ≤ f.2 ∧ f.2 ≤ 3) →
+      (matvec b x).length = 2 ^ n ∧ (matvec b x).getD i 0 = termSum x i b 0 := by
+    intro b hb
+    have h := matvec_fold n x hx b hb (x.map fun _ => 0) (by simp [hx]) i
+    rw [hz] at h
+    exact h
+  unfold parallelMatvec
+  have hlen : (List.map (fun g => matvec g x) (operatorGroups k a)).length = (operatorGroups k a).length := by simp
+  rw [← hlen, map_getD_range]
+  rw [reduceAdd_getD (2 ^ n) _ i hz _ (by
+    intro v hv
+    obtain ⟨g, hgm, rfl⟩ := List.mem_map.mp hv
+    exact (hmv g (hg g hgm)).1)]
+  rw [(hmv a ha).2, ← hflat, termSum_flatten, hflat, List.foldl_map]
+  -- both sides are folds over the groups; the summands agree group by group
+  have : ∀ (gs : List Op) (c : GQ), (∀ g ∈ gs, g ∈ operatorGroups k a) →
+      gs.foldl (fun acc g => acc + (matvec g x).getD i 0) c = gs.foldl (fun acc g => acc + termSum x i g 0) c := by
+    intro gs
+    induction gs with
+    | nil => intro c _; rfl
+    | cons g gs ih =>
+      intro c hm
+      simp only [List.foldl_cons]
+      rw [(hmv g (hg g (hm g (by simp)))).2]
+      exact ih _ (fun g' hg' => hm g' (by simp [hg']))
+  exact this _ 0 (fun g hg => hg)
+
 end C06
 end Proofs
 end OFV
